@@ -7,7 +7,7 @@ source = '\n'.join(lines)
 source = source.replace(util.STX, "").replace(util.ETX, "")
 source = source.replace("\r\n", "\n").replace("\r", "\n") + "\n\n"
 source = source.expandtabs(self.md.tab_length)
-source = re.sub(r'(?<=\n) +\n', '\n', source)
+source = re.sub(r'(?<![^\n]) +\n', '\n', source)
 return source.split('\n')
 ```
 
@@ -15,10 +15,14 @@ return source.split('\n')
 source string.  Every step is a named function; `normalize` is their composition.  `runSteps` interprets a list of
 steps (the translator emits the list it finds in the source); `normalize tab = runSteps tab defaultSteps`.
 
-The regular expression `(?<=\n) +\n` matches a maximal run of one or more spaces that is preceded by `\n` and
-followed by `\n` (`re.sub` scans left to right; the look-behind inspects the original text, so consecutive
-whitespace-only lines are all matched).  The look-behind cannot succeed at offset 0: a whitespace-only *first*
-line is not emptied (finding F-C09-1) — `wsLines` starts in the state "not after a line feed" and reproduces that.
+The regular expression `(?<![^\n]) +\n` matches a maximal run of one or more spaces that is *not preceded by a
+character other than `\n`* — i.e. preceded by `\n` or at the very start of the text — and followed by `\n` (`re.sub`
+scans left to right; the look-behind inspects the original text, so consecutive whitespace-only lines are all
+matched).  `wsLines` therefore starts in the state "at a line start" (`some 0`).
+
+History: up to commit a0e7e3c of the repository the pattern was `(?<=\n) +\n`, whose look-behind cannot succeed at
+offset 0, so a whitespace-only *first* line was not emptied (finding F-C09-1); the model then started in the state
+`none`.  The repair changed exactly that, and so did the model.
 -/
 import MdVerif.Py.Basic
 
@@ -43,9 +47,10 @@ def cr (s : Str) : Str := replace s ['\r'] ['\n']
 /-- `source + "\n\n"` -/
 def append2nl (s : Str) : Str := s ++ ['\n', '\n']
 
-/-- `re.sub(r'(?<=\n) +\n', '\n', ·)` as a one-pass scanner.  State `none`: the previous character is not `\n`
-    (or there is none).  State `some n`: a `\n` followed by `n` spaces has been read; the `\n` is already emitted, the
-    spaces are withheld: they are dropped when the next character is `\n`, emitted otherwise. -/
+/-- `re.sub(r'(?<![^\n]) +\n', '\n', ·)` as a one-pass scanner.  State `none`: the previous character is not `\n`
+    (and there is one).  State `some n`: a `\n` — or the start of the text — followed by `n` spaces has been read; the
+    `\n` is already emitted, the spaces are withheld: they are dropped when the next character is `\n`, emitted
+    otherwise. -/
 def wsLinesAux : Option Nat → Str → Str
   | none, [] => []
   | some n, [] => List.replicate n ' '
@@ -55,8 +60,9 @@ def wsLinesAux : Option Nat → Str → Str
     else if c = '\n' then '\n' :: wsLinesAux (some 0) s
     else List.replicate n ' ' ++ c :: wsLinesAux none s
 
-/-- `re.sub(r'(?<=\n) +\n', '\n', source)` -/
-def wsLines (s : Str) : Str := wsLinesAux none s
+/-- `re.sub(r'(?<![^\n]) +\n', '\n', source)`: the scan starts at a line start (before the repair a0e7e3c of
+    F-C09-1 the pattern was `(?<=\n) +\n` and the scan started in state `none`) -/
+def wsLines (s : Str) : Str := wsLinesAux (some 0) s
 
 /-- the string that `NormalizeWhitespace.run` splits into lines -/
 def normalize (tab : Nat) (s : Str) : Str :=
